@@ -49,7 +49,9 @@ def plan(tier):
         "timeout_s": 420 if q else 1800,
         "min_nontrivial": 100 if q else 500,
         "required_counters": ["oracle_bound", "oracle_exhausted_raises", "oracle_below_limit_completes",
-                              "oracle_dummy_first_failure", "cases_dummy", "cases_rollback"],
+                              "oracle_dummy_first_failure", "cases_dummy", "cases_rollback",
+                              "oracle_cross_bound", "oracle_cross_exhausted_raises", "oracle_cross_within_budget_completes",
+                              "cases_failure_with_running_siblings", "cases_failure_after_some_siblings_completed"],
         "rule": "case = (shape, job, phase, kind, failure count f, limit, manager); all (job, phase) of pipelines 1..3, "
                 "scatter 3, loop 2, diamond with limit 1..5 x f 0..limit+2 (quick: seeded sample). Non-trivial = the fault "
                 "fired at least once; distinct = distinct case tuple.",
@@ -85,16 +87,63 @@ def gen_cases(sh: Shard):
                         cases.append({"prog": sp, "job": j["job"], "phase": ph, "kind": kind, "f": f,
                                       "limit": None, "manager": "dummy"})
     rng.shuffle(cases)
-    for c in cases:
+    # (b) definitive / recoverable failures inside a scatter while siblings are still RUNNING (held inside
+    # their command until the faulty job passes - for ever if it never does, so the engine must cancel them),
+    # optionally after some siblings have already completed
+    hold = []
+    for n in (2, 3, 4, 6):
+        sp = C.scatter(n)
+        for i in sorted({0, n // 2, n - 1}):
+            others = [f"/b/0.{k}" for k in range(n) if k != i]
+            variants = [(others, [])]
+            if n >= 3:
+                half = others[: len(others) // 2]
+                variants.append(([j for j in others if j not in half], half))  # `half` completed first
+            for held, after in variants:
+                for ph in C.PHASES:
+                    for f in (1, 2):
+                        hold.append({"prog": sp, "job": f"/b/0.{i}", "phase": ph, "kind": "soft", "f": f, "limit": None,
+                                     "manager": "dummy", "hold": held, "after": after, "group": "hold"})
+                    for limit in (1, 2, 3):
+                        for f in (limit - 1, limit, limit + 1):
+                            if f < 1:
+                                continue
+                            for kind in ("soft", "own"):
+                                hold.append({"prog": sp, "job": f"/b/0.{i}", "phase": ph, "kind": kind, "f": f,
+                                             "limit": limit, "manager": "default", "hold": held, "after": after,
+                                             "group": "hold"})
+    for sp, job in ((C.scatter(3, body=2), "/b1/0.1"), (C.combo_pipe_scatter_pipe(3), "/b2/0.0")):
+        sibs = [j["job"] for j in R.jobs_of(sp) if j["step"] == job.rsplit("/", 1)[0] and j["job"] != job]
+        for limit, f in ((None, 1), (1, 1), (2, 2), (2, 1)):
+            hold.append({"prog": sp, "job": job, "phase": "execute", "kind": "soft", "f": f, "limit": limit,
+                         "manager": "dummy" if limit is None else "default", "hold": sibs, "after": [], "group": "hold"})
+    rng.shuffle(hold)
+    # (a) cross-job budget: upstream job A consumes k of its budget by its own soft failures, then a
+    # downstream job B fails r times with a fail-stop that deletes everything, rolling A (and every other
+    # ancestor) back r times
+    cross = []
+    chains = [(C.pipeline(2), "/p0/0", "/p1/0"), (C.pipeline(3), "/p0/0", "/p2/0"), (C.pipeline(3), "/p1/0", "/p2/0"),
+              (C.pipeline(3), "/p0/0", "/p1/0"), (C.scatter(3), "/a/0", "/c/0"), (C.scatter(2), "/b/0.1", "/c/0")]
+    for sp, a, b in chains:
+        for limit in range(1, 6):
+            for k in range(0, limit):
+                for r in range(1, limit - k + 2):
+                    for pa in (("execute",) if k == 0 else C.PHASES):
+                        for pb in ("execute", "transfer"):
+                            cross.append({"prog": sp, "a": a, "b": b, "k": k, "r": r, "pa": pa, "pb": pb, "limit": limit,
+                                          "manager": "default", "group": "cross"})
+    rng.shuffle(cross)
+    for c in cases + hold + cross:
         c["seed"] = rng.randrange(1 << 30)
     dummy = [c for c in cases if c["manager"] == "dummy"]
     roll = [c for c in cases if c["manager"] != "dummy"]
     out = []
-    while dummy or roll:  # one dummy case per four rollback cases (period 5 is coprime with the shard counts)
+    while dummy or roll or hold or cross:  # period 7 (4 single, 1 dummy, 1 hold, 1 cross) is coprime with the shard counts
         out += roll[:4]
         roll = roll[4:]
-        if dummy:
-            out.append(dummy.pop(0))
+        for group in (dummy, hold, cross):
+            if group:
+                out.append(group.pop(0))
     return out
 
 
@@ -102,11 +151,18 @@ def run_case(sh: Shard, case: dict) -> None:
     from vf.harness import c16_cases as C
     from vf.harness import c16_recovery as R
 
+    if case.get("group") == "cross":
+        return run_cross(sh, case)
     prog, job, ph, kind, f, limit, mgr, seed = (case[k] for k in ("prog", "job", "phase", "kind", "f", "limit", "manager", "seed"))
     faults = [{"job": job, "phase": ph, "kind": kind, "count": f}] if f > 0 else []
+    if faults and (case.get("hold") or case.get("after")):
+        faults[0].update(hold=list(case.get("hold") or ()), after=list(case.get("after") or ()))
+        sh.count("cases_failure_with_running_siblings")
+        if case.get("after"):
+            sh.count("cases_failure_after_some_siblings_completed")
     res = R.run_sync(prog, faults, os.path.join(sh.scratch, "case"), seed=seed, failure_manager=mgr,
                      max_retries=limit, wall_timeout=sh.pick(90, 300))
-    key = (prog["shape"], job, ph, kind, f, limit, mgr)
+    key = (prog["shape"], job, ph, kind, f, limit, mgr, len(case.get("hold") or ()), len(case.get("after") or ()))
     sh.case(key, nontrivial=C.fired(res) > 0 or f == 0)
     sh.count("cases_dummy" if mgr == "dummy" else "cases_rollback")
     sh.count(f"phase_{ph}")
@@ -190,6 +246,67 @@ def run_case(sh: Shard, case: dict) -> None:
                     f"{counts.get(job)} (expected {want_exec})")
     else:
         sh.count("failstop_below_limit_" + res.status)
+
+
+def predict_cross(prog, a, b, k, r, limit):
+    """Version model of the pinned manager: every failure of a job and every roll-back of an ancestor
+    needs version < limit.  Returns (must_raise, executions of A if the run completes)."""
+    from vf.harness import c16_recovery as R
+
+    anc = R.ancestors(R.jobs_of(prog))[b]
+    need = {b: 1 + r}
+    for x in anc:
+        need[x] = 1 + r + (k if x == a else 0)
+    return any(v > limit for v in need.values()), need
+
+
+def run_cross(sh: Shard, case: dict) -> None:
+    from vf.harness import c16_cases as C
+    from vf.harness import c16_recovery as R
+
+    prog, a, b, k, r, pa, pb, limit, seed = (case[x] for x in ("prog", "a", "b", "k", "r", "pa", "pb", "limit", "seed"))
+    faults = [{"job": b, "phase": pb, "kind": "all", "count": r}]
+    if k:
+        faults.insert(0, {"job": a, "phase": pa, "kind": "soft", "count": k})
+    res = R.run_sync(prog, faults, os.path.join(sh.scratch, "case"), seed=seed, failure_manager="default",
+                     max_retries=limit, wall_timeout=sh.pick(90, 300))
+    key = (prog["shape"], "cross", a, b, k, r, pa, pb, limit)
+    sh.case(key, nontrivial=C.fired(res) > 0)
+    sh.count("cases_cross_job_budget")
+    must_raise, need = predict_cross(prog, a, b, k, r, limit)
+    counts = res.exec_counts()
+    if len(sh.samples) < 3 and sh.shard in (8, 9) and not any(isinstance(x, dict) and "cross" in x for x in sh.samples):
+        sh.sample({"cross": {x: case[x] for x in ("a", "b", "k", "r", "pa", "pb", "limit")}, "shape": prog["shape"],
+                   "predicted_raise": must_raise, "status": res.status, "exec_counts": counts, "versions": res.versions})
+
+    def bad(what):
+        sh.violation(None, f"{what} [shape {prog['shape']}: upstream {a} fails {k}x ({pa}, soft), downstream {b} fails {r}x "
+                           f"({pb}, fail-stop/all), limit {limit}]",
+                     C.compact(res, prog, faults, seed, {"case": {x: v for x, v in case.items() if x != "prog"}, "kind": "c17"}))
+
+    if res.status == "walltimeout":
+        sh.inconclusive_because(f"wall-clock watchdog on {key}")
+        return
+    if res.status == "deadlock":
+        bad("executor neither returns nor raises (event loop quiescent)")
+        return
+    sh.count("oracle_cross_bound")
+    over = {j: n for j, n in counts.items() if n > limit}
+    if over:
+        bad(f"commands executed more than limit={limit} times: {over}")
+    if must_raise:
+        sh.count("oracle_cross_exhausted_raises")
+        if res.status != "raised":
+            bad(f"roll-backs + own failures exceed the budget (needed versions {need}) but executor.run() ended with status "
+                f"{res.status}; executions {counts}")
+    else:
+        sh.count("oracle_cross_within_budget_completes")
+        if res.status != "ok" or res.outputs != [R.denote(prog)]:
+            bad(f"budget sufficient (needed versions {need}) but status {res.status} {res.exc_msg or ''} outputs {str(res.outputs)[:200]}")
+        else:
+            want_a = 1 + r + (k if pa == "execute" else 0)
+            if counts.get(a) != want_a:
+                bad(f"upstream job ran {counts.get(a)} times, expected {want_a}")
 
 
 def run_shard(sh: Shard) -> None:
